@@ -1,27 +1,385 @@
-// Package c01: core evaluation order, binding and control (skeleton).
+// Package c01: core evaluation follows the language rules for order, binding
+// and control. Exhaustive enumeration of programs built from form templates
+// with typed holes (deviation-bounded nesting), each run on the real slip and
+// compared - value and trace of side effects - with an independent reference
+// evaluator; plus a table of quoted data in a fixed set of contexts.
 package c01
 
 import (
+	"fmt"
+	"sort"
 	"strings"
+
+	"github.com/ohler55/slip"
 
 	"verif/engine"
 	"verif/lisp"
 )
 
+const (
+	refBudgetSteps = 20000
+	stepSentinel   = "c01: slip step budget exceeded"
+)
+
 func init() {
 	engine.Register(&engine.Prop{
-		ID:        "C01",
-		Level:     "exploration",
-		Enumerate: func(tier string, emit func(string)) {},
+		ID:    "C01",
+		Level: "exploration",
+		Rule: "every program obtained from the form templates (one per form kind and variant, every evaluated position a typed hole " +
+			"whose default filling is a trace leaf (tr 'kN N)) by filling holes with further templates or environment leaves " +
+			"(variable read / variable increment / call of a closure in scope) up to the deviation bound of the tier, plus every " +
+			"quoted datum of the datum table in every context of the context table; each program is rendered to text, read and " +
+			"evaluated by slip in a fresh scope, and its value (converted by Go type switch) and its trace of side effects must " +
+			"equal those of the independent reference evaluator. A case is non-trivial when it composes at least two form kinds " +
+			"(>= 2 deviations) or, for quote cases, when the quoted datum sits inside another form",
+		Assumptions: []string{
+			"the reference evaluator implements the Common Lisp rules for the core forms (order of evaluation, scoping, multiple values)",
+			"programs are closed, well typed, free of non-local exits (C07), redefinition (C08), lambda-list keywords (C04) and large integers (C05)",
+			"implementation-dependent points are not exercised: closures never capture a dolist/dotimes variable beyond its iteration, " +
+				"dolist/dotimes variables are never assigned, literal data is never modified",
+		},
+		Enumerate: enumerate,
 		Exec:      exec,
+		Required: []string{"closure-call", "closure-updates-captured-variable", "branch-skipped", "shadowing-binding", "setq-outer-binding",
+			"loop-second-iteration", "recursive-call", "mv-bind-2", "traced-args>=2", "nested-forms>=2", "env-leaf", "quote-compound", "quote-evaluated-twice"},
+		Bound:    bound,
+		Selftest: selftest,
 	})
 }
 
-func exec(spec string) (res engine.Result) {
-	if strings.HasPrefix(spec, "raw:") {
-		val, tr, err := lisp.Run(spec[4:])
-		res.Outcome = "val=" + val + " trace=" + strings.Join(tr, ",") + " err=" + err.String()
+// ---------------------------------------------------------------- enumeration
+
+type tierPlan struct {
+	what string
+	opts genOpts
+	devs []int
+}
+
+func plans(tier string) []tierPlan {
+	if tier == engine.Thorough {
+		return []tierPlan{
+			{"all templates at every level, D<=3", genOpts{}, []int{1, 2, 3}},
+			{"root from all templates, inner levels from the core subset, D=4", genOpts{coreFrom: 2}, []int{4}},
+			{"spines (one filled hole per form) over the core subset below the root, D=5", genOpts{coreFrom: 2, spine: true}, []int{5}},
+		}
+	}
+	return []tierPlan{
+		{"all templates at every level, D<=2", genOpts{}, []int{1, 2}},
+		{"root and second level from all templates, third level from the core subset, D=3", genOpts{coreFrom: 3}, []int{3}},
+	}
+}
+
+func enumerate(tier string, emit func(string)) {
+	enumerateQuotes(emit)
+	for _, pl := range plans(tier) {
+		g := newGenerator(pl.opts)
+		for _, d := range pl.devs {
+			g.roots(d, func(s string) { emit("p|" + s) })
+		}
+	}
+}
+
+func bound(tier string) string {
+	var parts []string
+	for _, pl := range plans(tier) {
+		parts = append(parts, pl.what)
+	}
+	nCore := 0
+	for _, t := range templates {
+		if t.core {
+			nCore++
+		}
+	}
+	return fmt.Sprintf("%d templates (%d in the core subset), nesting depth <= 6, deviations D counted including the root form: %s; "+
+		"quote: %d data x %d contexts x 2 notations", len(templates), nCore, strings.Join(parts, "; "), len(datums), len(quoteCtxs))
+}
+
+// ---------------------------------------------------------------- running
+
+type observation struct {
+	val     string
+	trace   []string
+	err     *lisp.Err
+	runaway bool
+}
+
+func runSlip(text string, limit int) (o observation) {
+	scope := slip.NewScope()
+	n := 0
+	scope.InterruptCheck = func() {
+		n++
+		if limit < n {
+			panic(stepSentinel)
+		}
+	}
+	lisp.ResetTrace()
+	obj, err := lisp.EvalIn(scope, text)
+	o.trace = lisp.Trace()
+	o.err = err
+	if err != nil {
+		o.runaway = strings.Contains(err.Message, stepSentinel)
 		return
 	}
+	if vs, ok := obj.(slip.Values); ok && len(vs) == 1 {
+		obj = vs[0]
+	}
+	o.val = lisp.Show(obj)
+	return
+}
+
+type verdict struct {
+	ok       bool
+	kind     string // failure kind
+	text     string
+	want     string
+	wantTr   []string
+	got      observation
+	skip     string // reference could not evaluate (budget / generator bug)
+	hits     map[string]int
+	refSteps int
+}
+
+func sameTrace(a, b []string) bool {
+	if len(a) != len(b) {
+		return false
+	}
+	for i := range a {
+		if a[i] != b[i] {
+			return false
+		}
+	}
+	return true
+}
+
+func traceKind(want, got []string) string {
+	cnt := map[string]int{}
+	for _, k := range want {
+		cnt[k]++
+	}
+	extra, missing := false, false
+	for _, k := range got {
+		cnt[k]--
+	}
+	for _, c := range cnt {
+		if c < 0 {
+			extra = true
+		}
+		if 0 < c {
+			missing = true
+		}
+	}
+	switch {
+	case extra && missing:
+		return "trace-differs"
+	case extra:
+		return "trace-extra-effects"
+	case missing:
+		return "trace-missing-effects"
+	}
+	return "trace-order"
+}
+
+// judge runs one term on the reference and on slip.
+func judge(t *term, prefix string) (v verdict) {
+	p := instantiate(t, prefix)
+	v.text = p.text()
+	r := newRef("", refBudgetSteps)
+	want, rerr := r.run(p.forms)
+	v.hits = r.hits
+	v.refSteps = r.steps
+	if rerr != "" {
+		v.skip = rerr
+		return
+	}
+	v.want = showVal(want)
+	v.wantTr = r.trace
+	v.got = runSlip(v.text, 50*r.steps+10000)
+	switch {
+	case v.got.runaway:
+		v.kind = "runaway"
+	case v.got.err != nil && v.got.err.GoFault:
+		v.kind = "go-fault"
+	case v.got.err != nil:
+		v.kind = "error:" + v.got.err.Class
+	case !sameTrace(v.wantTr, v.got.trace):
+		v.kind = traceKind(v.wantTr, v.got.trace)
+	case v.want != v.got.val:
+		v.kind = "value"
+	default:
+		v.ok = true
+	}
+	return
+}
+
+func clip(tr []string) string {
+	if 60 < len(tr) {
+		return strings.Join(tr[:60], ",") + fmt.Sprintf(",…(%d)", len(tr))
+	}
+	return strings.Join(tr, ",")
+}
+
+func (v *verdict) describe() string {
+	got := ""
+	switch {
+	case v.got.runaway:
+		got = "does not terminate within 50x the reference's step count"
+	case v.got.err != nil:
+		got = "signals " + v.got.err.String() + " after trace [" + clip(v.got.trace) + "]"
+	default:
+		got = v.got.val + " with trace [" + clip(v.got.trace) + "]"
+	}
+	return fmt.Sprintf("%s => slip: %s; language definition: %s with trace [%s]", v.text, got, v.want, clip(v.wantTr))
+}
+
+// ---------------------------------------------------------------- signature by minimisation
+
+// minimise greedily reduces a failing term to a locally minimal failing term:
+// replace a subtree by the default leaf, hoist a subtree to the root, or
+// replace a node by one of its children, as long as the program still fails.
+// The reduced term names *what* fails: it is the signature.
+func minimise(t *term, prefix string, budget int) (*term, verdict) {
+	seq := 0
+	try := func(c *term) (verdict, bool) {
+		if budget <= 0 || !valid(c, 'a', scope{}) {
+			return verdict{}, false
+		}
+		budget--
+		seq++
+		v := judge(c, fmt.Sprintf("%sm%d", prefix, seq))
+		return v, v.skip == "" && !v.ok
+	}
+	cur := t
+	var curV verdict
+	have := false
+	for {
+		improved := false
+		// all nodes in preorder with a way to rebuild the tree with that node replaced
+		type site struct {
+			node    *term
+			replace func(by *term) *term
+		}
+		var sites []site
+		var walk func(n *term, rebuild func(*term) *term)
+		walk = func(n *term, rebuild func(*term) *term) {
+			sites = append(sites, site{n, rebuild})
+			for i := range n.kids {
+				i := i
+				walk(n.kids[i], func(by *term) *term {
+					c := &term{kind: n.kind, kids: append([]*term(nil), n.kids...)}
+					c.kids[i] = by
+					return rebuild(c)
+				})
+			}
+		}
+		walk(cur, func(by *term) *term { return by })
+		var cands []*term
+		for _, s := range sites[1:] {
+			if s.node.kind != "_" {
+				cands = append(cands, s.replace(leafTerm())) // drop the subtree
+			}
+		}
+		for _, s := range sites[1:] {
+			if s.node.kind != "_" && !strings.HasPrefix(s.node.kind, "$") {
+				cands = append(cands, s.node) // hoist to the root
+			}
+		}
+		for _, s := range sites {
+			for _, k := range s.node.kids {
+				if k.kind != "_" {
+					cands = append(cands, s.replace(k)) // splice a child in place of its parent
+				}
+			}
+		}
+		sort.SliceStable(cands, func(a, b int) bool { return cands[a].deviations() < cands[b].deviations() })
+		for _, c := range cands {
+			if v, fails := try(c); fails {
+				cur, curV, have, improved = c, v, true, true
+				break
+			}
+		}
+		if !improved {
+			break
+		}
+	}
+	if !have {
+		curV = judge(cur, prefix+"m0")
+	}
+	return cur, curV
+}
+
+// ---------------------------------------------------------------- exec
+
+func exec(spec string) (res engine.Result) {
+	switch {
+	case strings.HasPrefix(spec, "raw:"):
+		o := runSlip(spec[4:], 1000000)
+		res.Outcome = "val=" + o.val + " trace=" + strings.Join(o.trace, ",") + " err=" + o.err.String()
+		return
+	case strings.HasPrefix(spec, "show:"):
+		t, err := parseTerm(spec[5:])
+		if err != nil {
+			res.Fail("harness:bad-spec", err.Error())
+			return
+		}
+		v := judge(t, "c01s")
+		res.Outcome = fmt.Sprintf("ok=%v kind=%s skip=%s :: %s", v.ok, v.kind, v.skip, v.describe())
+		return
+	case strings.HasPrefix(spec, "q|"):
+		return execQuote(spec)
+	case strings.HasPrefix(spec, "p|"):
+	default:
+		res.Fail("harness:bad-spec", spec)
+		return
+	}
+	t, err := parseTerm(spec[2:])
+	if err != nil || !valid(t, 'a', scope{}) {
+		res.Fail("harness:bad-spec", fmt.Sprintf("%s: %v", spec, err))
+		return
+	}
+	prefix := fmt.Sprintf("c01f%x", engine.Hash64(spec))
+	v := judge(t, prefix)
+	if v.skip != "" {
+		if strings.HasPrefix(v.skip, "ref-error") {
+			res.Fail("harness:generator-produced-ill-typed-program", v.text+" :: "+v.skip)
+			return
+		}
+		res.Hit("skipped:" + v.skip)
+		res.Outcome = "skipped:" + v.skip
+		return
+	}
+	dev := t.deviations()
+	res.Nontrivial = 2 <= dev
+	res.Counters = map[string]int{}
+	for k, n := range v.hits {
+		if 0 < n {
+			res.Counters[k] = 1
+		}
+	}
+	if 2 <= dev {
+		res.Hit("nested-forms>=2")
+	}
+	if 3 <= t.depth() {
+		res.Hit("nesting-depth>=3")
+	}
+	if strings.Contains(spec, "$") {
+		res.Hit("env-leaf")
+	}
+	if 2 <= len(v.wantTr) {
+		res.Hit("traced-args>=2")
+	}
+	if 0 < v.hits["closure-call"] && 0 < v.hits["setq-outer-binding"] {
+		res.Hit("closure-updates-captured-variable")
+	}
+	if v.got.err != nil {
+		res.Outcome = "err:" + v.got.err.Class + "|" + clip(v.got.trace)
+	} else {
+		res.Outcome = v.got.val + "|" + clip(v.got.trace)
+	}
+	if v.ok {
+		return
+	}
+	core, cv := minimise(t, prefix, 300)
+	res.Fail(fmt.Sprintf("core=%s kind=%s", core, cv.kind),
+		fmt.Sprintf("%s [reduced from %s: %s]", cv.describe(), spec[2:], v.describe()))
 	return
 }
